@@ -86,9 +86,42 @@ func main() {
 		os.Exit(mainReplay(os.Args[2:]))
 	case "gen":
 		os.Exit(mainGen(os.Args[2:]))
+	case "obs":
+		os.Exit(mainObs(os.Args[2:]))
 	}
 	fmt.Fprintln(os.Stderr, "simexec: unknown command", os.Args[1])
 	os.Exit(2)
+}
+
+// mainObs prints everything observable of a replay file's scenario under its
+// first schedule; the driver diffs the output of two OS processes.
+func mainObs(args []string) int {
+	if len(args) < 1 {
+		return 2
+	}
+	b, err := ioutil.ReadFile(args[0])
+	if err != nil {
+		fmt.Fprintln(os.Stderr, "simexec:", err)
+		return 2
+	}
+	var rf ReplayFile
+	if err := json.Unmarshal(b, &rf); err != nil || rf.Scenario == nil {
+		fmt.Fprintln(os.Stderr, "simexec: bad replay file")
+		return 2
+	}
+	var s *simrtSchedule
+	if len(rf.Scenario.Scheds) > 0 {
+		s = rf.Scenario.Scheds[0]
+	}
+	o := Execute(rf.Scenario, s)
+	if o.HarnessPanic != "" {
+		fmt.Fprintln(os.Stderr, "simexec: trouble:", o.HarnessPanic)
+		return 2
+	}
+	for _, l := range c15Observable(o) {
+		fmt.Println(strings.ReplaceAll(l, "\n", "\\n"))
+	}
+	return 0
 }
 
 func mainGen(args []string) int {
@@ -97,6 +130,8 @@ func mainGen(args []string) int {
 	seed := fs.Uint64("seed", 1, "")
 	idx := fs.Int("index", 0, "")
 	tier := fs.String("tier", "quick", "")
+	asReplay := fs.String("as-replay", "", "write the scenario as a replay file of this class instead of printing it")
+	outFile := fs.String("o", "", "")
 	fs.Parse(args)
 	p := properties[*prop]
 	if p == nil {
@@ -105,6 +140,15 @@ func mainGen(args []string) int {
 	}
 	sc := p.Gen(NewRng(scenarioSeed(*seed, *prop, *idx)), *idx, *tier)
 	sc.Seed, sc.Index = *seed, *idx
+	if *asReplay != "" {
+		rf := ReplayFile{Property: *prop, Class: *asReplay, Message: "outcome differs between two OS processes running the same scenario and schedule", Seed: *seed, Index: *idx, Tier: *tier, Scenario: sc}
+		b, _ := json.MarshalIndent(rf, "", " ")
+		if err := ioutil.WriteFile(*outFile, b, 0644); err != nil {
+			fmt.Fprintln(os.Stderr, "simexec:", err)
+			return 2
+		}
+		return 0
+	}
 	b, _ := json.MarshalIndent(sc, "", " ")
 	fmt.Println(string(b))
 	v := judgeSafely(p, sc)
